@@ -426,7 +426,7 @@ def r_table_lookup_exact(cx):
     cx.count("R-TABLE-LOOKUP-EXACT", "predicates", n)
 
 
-@rule("R-LIMIT-ON-PLANE", ["C10"])
+@rule("R-LIMIT-ON-PLANE", ["C10", "C13"])
 def r_limit_on_plane(cx):
     """Where the forward and the inverse function of a projection guard their domain with the same constant (the
     transverse Mercator strip: 2.623395162778 in units of the normalised easting), both test the same quantity of the
@@ -510,12 +510,22 @@ def r_limit_on_plane(cx):
                 inputs[t] = "XIN"
             for t in ys:
                 inputs[t] = "YIN"
-            r = _rf(q, _k0_atom({}, inputs))
+            r = _rf(q, _k0_atom({}, inputs, g))
             ok = r is not None and any(_has_sym(p, s_) for p in r for s_ in ("XIN", "YIN"))
+            if ok:
+                # the false origin is removed before the limit is applied: with input = u + offset no offset is left
+                from poly import Poly, subst
+                for IN, OFF in (("XIN", "X0"), ("YIN", "Y0")):
+                    if _has_sym(r[0], IN) or _has_sym(r[1], IN):
+                        m_ = {IN: Poly.sym("u") + Poly.sym(OFF)}
+                        n2, d2 = subst(r[0], m_), subst(r[1], m_)
+                        if not _indep(n2, d2, OFF):
+                            ok = False
             cx.ob("R-LIMIT-ON-PLANE", "%s/inv/limit=%s" % (c.names[0], float(k)), ok,
                   "%s inverse tests the limit %s on an arithmetic function of the input coordinate" % (c.names[0], float(k))
                   if ok else "%s inverse: the value compared with the domain limit %s is not an arithmetic function of the "
-                  "input easting / northing" % (c.names[0], float(k)), cx.where(sp))
+                  "input easting / northing with the false origin removed (x_0 is then no pure offset: a zone-prefixed false "
+                  "easting such as x_0=32500000 pushes every input over the limit)" % (c.names[0], float(k)), cx.where(sp))
     cx.count("R-LIMIT-ON-PLANE", "paired_limits", n)
 
 
